@@ -168,9 +168,15 @@ def gen_palette(rng, ctx, pool, use_auto, dims):
     pal["IntentErrorRecovery"] = ["IgnoreIntent", "Error"]
     name = rng.choice(sorted(ctx.clearspeak))
     pal["ClearSpeak"] = (name, ["Auto", rng.choice(ctx.clearspeak[name][1:])])
+    # number-valued engine preferences: used when a pause / prosody element is SPOKEN, so a change after the rule files were compiled must show
+    ename = rng.choice(["PauseFactor", "PauseFactor", "Rate", "MathRate", "Pitch", "Volume", "CapitalLetters_Pitch"])
+    pal["Engine"] = (ename, {"PauseFactor": ["100", "40", "250"], "Rate": ["180", "90", "360"], "MathRate": ["100", "150", "60"], "Pitch": ["0", "20"],
+                             "Volume": ["100", "50"], "CapitalLetters_Pitch": ["0", "30"]}[ename])
+    if "Engine" in dims:
+        pal["TTS"] = rng.sample(["None", "SSML", "SAPI5"], 2)
     exprs = rng.sample(pool, rng.choice([2, 3, 3, 4]))
     # steer the expressions towards what the switched preferences can change
-    if "BrailleCode" in dims and rng.random() < 0.5:
+    if ("BrailleCode" in dims and rng.random() < 0.5) or "Engine" in dims:
         exprs[0] = rng.choice(FRACTION_EXPRS)
     if ("DecimalSeparator" in dims or "Language" in dims) and rng.random() < 0.7:
         exprs[0 if "DecimalSeparator" in dims else -1] = rng.choice(NUMBER_EXPRS)
@@ -195,12 +201,12 @@ def pref_ops(name, v):
 def gen_away_and_back(rng, ctx, pool, use_auto):
     """the explicit P -> Q -> P history for ONE preference: every getter under A, under B and under A again on the same expression (set
     again only when the preference takes part in canonicalisation), with some noise in between"""
-    dim = rng.choice(["Language", "SpeechStyle", "Verbosity", "BrailleCode", "TTS", "DecimalSeparator", "CheckRuleFiles", "IntentErrorRecovery", "ClearSpeak"])
+    dim = rng.choice(["Language", "SpeechStyle", "Verbosity", "BrailleCode", "TTS", "DecimalSeparator", "CheckRuleFiles", "IntentErrorRecovery", "ClearSpeak", "Engine"])
     pal = gen_palette(rng, ctx, pool, use_auto, [dim])
     x = pal["exprs"][0]
     if dim == "IntentErrorRecovery":
         x = rng.choice(INTENT_EXPRS[:2])
-    name, values = (pal[dim] if dim == "ClearSpeak" else (dim, pal[dim]))
+    name, values = (pal[dim] if dim in ("ClearSpeak", "Engine") else (dim, pal[dim]))
     values = [v for v in values if not v.startswith("Auto:")] if dim == "Language" else list(values)
     a, b = rng.sample(values, 2) if len(values) >= 2 else (values[0], values[0])
     hist = [["set_preference", "TTS", pal["TTS"][0]]]
@@ -230,7 +236,7 @@ def gen_history(rng, ctx, pool, use_auto=True):
     dims = []
     if rng.random() < 0.75:
         dims.append("Language")
-    others = ["SpeechStyle", "Verbosity", "BrailleCode", "TTS", "DecimalSeparator", "CheckRuleFiles", "IntentErrorRecovery", "ClearSpeak"]
+    others = ["SpeechStyle", "Verbosity", "BrailleCode", "TTS", "DecimalSeparator", "CheckRuleFiles", "IntentErrorRecovery", "ClearSpeak", "Engine"]
     dims += rng.sample(others, rng.choice([1, 2, 2, 3]))
     pal = gen_palette(rng, ctx, pool, use_auto, dims)
     hist = []
@@ -245,7 +251,7 @@ def gen_history(rng, ctx, pool, use_auto=True):
         return v
 
     def switch(dim, value=None):
-        if dim == "ClearSpeak":
+        if dim in ("ClearSpeak", "Engine"):
             name, values = pal[dim]
             hist.append(["set_preference", name, value or pick(dim, values)])
             return
